@@ -38,6 +38,10 @@ CHECKS = {
          "No signing-path instruction overwrites, element-stores into or relabels an object owned by the caller's key data (one declared exception); the ECDSA k/gamma and EdDSA r_i nonces are stored once per session directly from GetRandomPositiveInt(round.Rand(), N); both save-data types are closed under encoding/json (exported fields or symmetric custom codecs with identical auxiliary types); the subset builder copies every per-party slice at one (j, savedIdx) pair and every other field group whole, into slices of its own.",
          "§4.20",
          "Not decided: equality of results after a JSON reload, nonce distinctness as a probability statement."),
+ "C06": ("panic-site discharge over go/ssa: module-wide origin analysis (WIRE/RAND/HASH/KEY/CONST with field summaries, own-key and trusted key-data paths), dominating-guard facts on symbolic terms, helper preconditions lifted to their call sites, length-origin and element-length invariants for lists, use-before-error paths, assertion/store table agreement, fork-join and channel-capacity rule",
+         "Every reachable instance of seven repository-specific crash classes is discharged on all paths: stored messages are validated and index-bounded by their own array's length class; peer-influenced scalars of the panicking curve wrappers are guarded non-zero mod q; possibly-nil ModInverse/negative-power results are nil-checked or their operand proven a unit; Jacobi/Mod/Div/Exp moduli that a peer chooses are guarded (odd, positive / non-zero) in the verifier or at every call site of the helper; constant and loop indices into lists whose length the sender picks are covered by an established length; results of fallible constructors are not used before the error is branched on; unchecked type assertions name the filed type; explicit panics form a reasoned table; goroutines are joined and result channels have room for every send.",
+         "§4.6",
+         "Not decided: panics inside btcec/edwards/protobuf/runtime for well-typed arguments; nil dereferences outside the listed classes; hangs other than zero-modulus powers, unjoined goroutines and blocked sends; byte-length arithmetic on encodings of single integers; whether a results-array slot of a failed peer can be read (decided only for the early-return form)."),
  "C07": ("who-may-write / control-dependence / must-pass-through rules over the extracted protocol model and the round engine's CFG",
          "Five necessary conditions of order-independence decided on every path: StoreMessage stores every content type under conditions that depend only on the message and its validation; message slots are written only by StoreMessage[sender] and Start[self] and never cleared; after advance() BaseUpdate starts the new round and re-runs itself with the same message after unlocking (or returns the Start error); every slot a round's Start reads was awaited by an earlier round or self-stored; one result emission, in the final round, with the started/NextRound lifecycle intact.",
          "§4.7",
